@@ -30,6 +30,18 @@ pub fn build(t: &dyn TypeOps, cx: &mut Cx) -> usize {
 
 pub fn case_hash(cx: &Cx, v: &Val) -> u64 { hash64(&[cx.type_id.as_bytes(), format!("{:?}", v).as_bytes()]) }
 
+
+/// Scaling factors that push the borrowed payload of a value past a page, an 8 KiB
+/// BufReader/BufWriter buffer and 64 KiB.
+pub const LARGE_SCALES: [usize; 2] = [3_000, 30_000];
+
+/// Index of the first value whose model trace has a non-empty borrowed block (the values
+/// that `scale` makes larger), if any.
+pub fn first_scalable(t: &dyn TypeOps, n: usize) -> Option<usize> {
+    let ty = t.ty();
+    (0..n).find(|&i| encode(&ty, &t.val(i), t.type_name()).events.iter().any(|e| matches!(e, Ev::Block { borrowed: true, len, .. } if *len > 0)))
+}
+
 // ------------------------------------------------------------------ C01
 
 /// Full-copy round trip over the complete value domain, plus the inner API at every start
@@ -73,6 +85,25 @@ pub fn c01(t: &dyn TypeOps, cx: &mut Cx) {
             }
         }
     }
+    // large values: the same skeleton with every sequence payload scaled past a page / 8 KiB / 64 KiB
+    if let Some(i) = first_scalable(t, n) {
+        for k in LARGE_SCALES {
+            cx.evals += 1;
+            match t.ser_scaled(i, k) {
+                Out::Ok((bytes, sval)) => {
+                    let enc = encode(&ty, &sval, t.type_name());
+                    if !masked_eq(&bytes, &enc.bytes, &enc.mask) { cx.violate("large-value-bytes-differ-from-model", json!({"value_index": i, "scale": k, "len": bytes.len(), "model_len": enc.bytes.len()})); }
+                    match t.full(&bytes) {
+                        Out::Ok((got, pos)) if got == sval && pos == bytes.len() => cx.outcome("large-full-ok"),
+                        Out::Ok((got, _)) if got != sval => cx.violate("large-value-full-wrong-value", json!({"value_index": i, "scale": k, "len": bytes.len()})),
+                        Out::Ok((_, pos)) => cx.violate("large-value-full-consumes-wrong-count", json!({"value_index": i, "scale": k, "consumed": pos, "len": bytes.len()})),
+                        o => cx.violate(&format!("large-value-full-{}", o.class()), json!({"value_index": i, "scale": k, "observed": o.describe()})),
+                    }
+                }
+                o => cx.violate(&format!("large-value-ser-{}", o.class()), json!({"value_index": i, "scale": k, "observed": o.describe()})),
+            }
+        }
+    }
 }
 
 // ------------------------------------------------------------------ C02 + C03
@@ -111,6 +142,20 @@ pub fn c02(t: &dyn TypeOps, cx: &mut Cx, c03: bool) {
                 o => cx.violate("eps-disagrees-with-full", json!({"value": vdesc(i, &want), "eps": format!("{:?}", got), "full": o.describe()})),
             }
             if i < 1 { cx.sample(json!({"type": cx.type_id, "value": format!("{:?}", want), "eps": format!("{:?}", got)})); }
+            if Some(i) == first_scalable(t, n) {
+                for k in LARGE_SCALES {
+                    cx.evals += 1;
+                    if let Out::Ok((lb, sval)) = t.ser_scaled(i, k) {
+                        let mut big = Arena::new(lb.len() + 4096);
+                        let placed = big.place(0, &lb);
+                        match t.eps(placed) {
+                            Out::Ok((g, _)) if g == sval => cx.outcome("large-eps-ok"),
+                            Out::Ok(_) => cx.violate("large-value-eps-wrong-value", json!({"value_index": i, "scale": k, "len": lb.len()})),
+                            o => cx.violate(&format!("large-value-eps-{}", o.class()), json!({"value_index": i, "scale": k, "observed": o.describe()})),
+                        }
+                    }
+                }
+            }
             continue;
         }
         // C03: spans against the model's borrowed blocks
@@ -129,10 +174,10 @@ pub fn c02(t: &dyn TypeOps, cx: &mut Cx, c03: bool) {
                 if s.elem_size != *elem_size { bad.push("elem-size"); }
                 if s.addr == 0 { bad.push("null"); }
                 if s.elem_align > 0 && s.addr % s.elem_align != 0 { bad.push("misaligned"); }
-                if *len > 0 {
-                    if s.addr != base + off { bad.push("address"); }
-                    if s.addr < base || s.addr.saturating_add(s.bytes) > base + bytes.len() { bad.push("out-of-bounds"); }
-                }
+                // also for zero-byte spans (empty slices, zero-sized items): the reference is
+                // positioned at the stream offset of the (empty) block
+                if s.addr != base + off { bad.push(if *len > 0 { "address" } else { "address-of-empty-span" }); }
+                if *len > 0 && (s.addr < base || s.addr.saturating_add(s.bytes) > base + bytes.len()) { bad.push("out-of-bounds"); }
                 if !bad.is_empty() {
                     cx.violate(&format!("span-{}", bad.join("+")), json!({"value": vdesc(i, &want), "model_block": format!("{:?}", b), "span": format!("{:?}", s), "base": base}));
                 }
